@@ -154,14 +154,16 @@ def cmdGenText : P String := do
 
 /-! ## the verdict -/
 
-/-- the class of input on which the generator used to fail before 30ae85f / 764942c / 2a8a008 (evidence feature
-    `risk=`: these stay covered as regression inputs and must now succeed like any other description):
-    package name a Go keyword or `main`; `@IMPORTS@` in the interface documentation; the old substring tests
+/-- the class of input on which the generator used to fail before 30ae85f / 764942c / 2a8a008 / f1a09c1 (evidence
+    feature `risk=`: these stay covered as regression inputs and must now succeed like any other description):
+    package name a Go keyword, `main` or `documentation` (go/build ignores the files of a package of that name);
+    `@IMPORTS@` in the interface documentation; the old substring tests
     (`json.RawMessage`, `fmt.Sprintf` anywhere in the emitted text, i.e. also in documentation and names)
     disagreeing with what the declarations use -/
 def formerDefect (t : Idl) : String :=
   if goKeywords.contains (pkgBase t.name) then "keyword-package"
   else if pkgBase t.name == str "main" then "main-package"
+  else if pkgBase t.name == str "documentation" then "documentation-package"
   else if contains (str "@IMPORTS@") t.doc then "placeholder-in-doc"
   else match genTextO t with
     | some s =>
@@ -230,6 +232,11 @@ def cmdGen : P String := do
   | some s => if modelCrash || s != modelText then return s!"DIFF C07 harness-driver-desync {feats}"
   if mo.isSome != mf.isSome then return s!"DIFF C07 view-and-text-disagree-on-crash {feats}"
   if !twice then return s!"DIFF C07 second-run-over-an-existing-output-file-gives-other-bytes {feats}"
+  -- a regression of f1a09c1 keeps its own stable reason: the real generator's file carries `package documentation`,
+  -- go/build ignores it and the package does not build. Reported before the comparison with the model, which
+  -- has the repaired rule (`documentation_`) and therefore differs in text and file name as well.
+  if dom && compile == "fail" && ccls == str "package-documentation" then
+    return s!"DIFF C07 package-documentation-ignored-by-go-build {feats}"
   -- model against the real generator
   match mf with
   | none =>
@@ -279,6 +286,8 @@ def cmdGen : P String := do
     if compile == "fail" then
       if ccls == str "unused-import" then return s!"DIFF C07 compiler-rejects-unused-import {feats}"
       if ccls == str "package-main" then return s!"DIFF C07 package-main-not-importable {feats}"
+      if ccls == str "package-documentation" then
+        return s!"DIFF C07 package-documentation-ignored-by-go-build {feats}"
       return s!"DIFF C07 compiler-rejects-in-domain-{bstr ccls} {feats}"
     if probe == "main" then return s!"DIFF C07 package-main-not-importable {feats}"
     if real != "ok" then return s!"DIFF C07 theorem-contradicted:total {feats}"
